@@ -17,6 +17,7 @@ import (
 	"fmt"
 	"os"
 	"path/filepath"
+	"reflect"
 	"strings"
 	"sync"
 	"time"
@@ -176,6 +177,23 @@ func twinsOf(t *chaingen.Tree) *storeobs.Twins {
 	return tw
 }
 
+// naturalWait is how long the harness idles before one block step so that the store's own
+// time-based flush test may fire inside it: the interval the store reports (a method
+// FlushThresholds returning a time.Duration, should the implementation expose one) plus a
+// margin, else a little over today's 5 s; never more than 12 s. Nothing depends on the store
+// actually committing then.
+func naturalWait(store any) time.Duration {
+	wait := 5100 * time.Millisecond
+	if m := reflect.ValueOf(store).MethodByName("FlushThresholds"); m.IsValid() && m.Type().NumIn() == 0 {
+		for _, out := range m.Call(nil) {
+			if d, ok := out.Interface().(time.Duration); ok && d > 0 {
+				wait = d + 100*time.Millisecond
+			}
+		}
+	}
+	return min(wait, 12*time.Second)
+}
+
 func runCase(t *chaingen.Tree, cs Case, wantCoq bool) (o outcome) {
 	backend, closeDB := newBackend(cs)
 	defer closeDB()
@@ -205,7 +223,10 @@ func runCase(t *chaingen.Tree, cs Case, wantCoq bool) (o outcome) {
 	if cs.NaturalAt > 0 {
 		nd.Rec.Before = func(bool) {
 			if len(nd.Steps) == cs.NaturalAt {
-				time.Sleep(5100 * time.Millisecond)
+				// give the store's own time threshold a chance to fire inside this step. When it fires is
+				// not part of the property: if the store exposes its interval use it, otherwise wait a
+				// little over the 5 s it has today; whatever commit then happens (or not) is what is audited
+				time.Sleep(naturalWait(nd.Inner))
 				natural = len(rec.Images)
 			}
 		}
@@ -218,9 +239,6 @@ func runCase(t *chaingen.Tree, cs Case, wantCoq bool) (o outcome) {
 				if im.Step == cs.NaturalAt {
 					found = true
 				}
-			}
-			if len(nd.Steps) > cs.NaturalAt && !found {
-				o.fail = &failure{"c03-threshold-did-not-fire", fmt.Sprintf("5 s after the last commit the store did not commit during block step %d", cs.NaturalAt), -1}
 			}
 			if found {
 				o.naturalFired = true
@@ -820,11 +838,14 @@ func run(c *hx.Ctx) {
 		if nr.cs.NaturalAt == 0 {
 			continue
 		}
-		res.Count("histories-with-the-store's-own-threshold-firing")
+		res.Count("histories-idling-before-a-step-for-the-store's-own-threshold")
 		js, _ := json.Marshal(nr.cs)
 		res.Eval(string(js), nr.o.midReorg > 0)
 		res.CountN("images-committed", nr.o.images)
 		res.CountN("images-audited-and-caught-up", nr.o.audited)
+		if !nr.o.naturalFired && nr.o.fail == nil {
+			res.Count("own-threshold-did-not-fire-during-the-chosen-step (not judged)")
+		}
 		if nr.o.naturalFired && nr.o.nd != nil && nr.cs.NaturalAt < len(nr.o.nd.Steps) {
 			if nr.o.nd.Steps[nr.cs.NaturalAt].Apply {
 				res.Count("own-threshold-fired-inside:ApplyBlock")
